@@ -1,7 +1,7 @@
 (* C08 — cumulative operations are per-group prefix reductions. *)
 From Coq Require Import List ZArith Bool.
 From GL Require Import Lib.Arr Lib.Keyed Model.Dom Model.Scalar Model.Cumulative
-  Spec.Defs Proofs.ReduceSeries Proofs.RowGeneric Proofs.CumProofs Proofs.GenTie Gen.ScalarFuncsGen.
+  Spec.Defs Proofs.ReduceSeries Proofs.RowGeneric Proofs.CumProofs Proofs.CumSpec Spec.RowSpec Proofs.GenTie Gen.ScalarFuncsGen.
 Import ListNotations.
 Open Scope Z_scope.
 
@@ -93,6 +93,26 @@ Theorem C08_cumsum_every_row gk (vals : list fl) ng mask i k v :
     sum_list fops (nonnull fops (earlier gk vals mask k i ++ [v])).
 Proof. exact (cumsum_row fops fops_laws gk vals ng mask i k v). Qed.
 Print Assumptions C08_cumsum_every_row.
+
+(* ---- THE statement: the kernel's whole output array equals the per-group prefix reduction written
+   with positions (Spec/RowSpec.cum_spec: filter the group's selected positions <= i, reduce their
+   non-null values), for cumsum/cummin/cummax/cumcount, every dtype class, any mask, null keys ---- *)
+Theorem C08_cumulative_is_prefix_reduction_float op gk (vals : list fl) ng mask :
+  length vals = length gk -> wf_mask (length gk) mask -> (forall k, In k gk -> k < Z.of_nat ng) ->
+  cumulative fops op true gk vals ng mask = cum_spec fops op gk vals mask.
+Proof. exact (cumulative_is_cum_spec fops fops_laws op gk vals ng mask). Qed.
+Theorem C08_cumulative_is_prefix_reduction_int nullable nullv op gk (vals : list Z) ng mask :
+  length vals = length gk -> wf_mask (length gk) mask -> (forall k, In k gk -> k < Z.of_nat ng) ->
+  cumulative (zops nullable nullv) op true gk vals ng mask = cum_spec (zops nullable nullv) op gk vals mask.
+Proof. exact (cumulative_is_cum_spec _ (zops_laws nullable nullv) op gk vals ng mask). Qed.
+(* skip_na = False (floats): a NaN makes the running sum NaN from there on *)
+Theorem C08_cumsum_noskip_float gk (vals : list fl) ng mask :
+  length vals = length gk -> wf_mask (length gk) mask -> (forall k, In k gk -> k < Z.of_nat ng) ->
+  cumulative fops CSum false gk vals ng mask = cumsum_noskip_spec fops gk vals mask.
+Proof. exact (cumsum_noskip_is_spec fops fops_laws fops_sum_closed fops_null_unique gk vals ng mask). Qed.
+Print Assumptions C08_cumulative_is_prefix_reduction_float.
+Print Assumptions C08_cumulative_is_prefix_reduction_int.
+Print Assumptions C08_cumsum_noskip_float.
 
 Example C08_example :
   cumulative (zops true 0) CMax true [0; 1; 0; -1; 0] [5; 100; MIN_INT; 100; 7] 2 None = [5; 100; 5; MIN_INT; 7].
